@@ -43,6 +43,14 @@ CLAIMED = {
         "design_ref": "DESIGN.md §8 C14",
         "technique": "Lean 4 theorems (R3 last-match, R4 parser projections) + T1 correspondence + paired-config failing-input search",
     },
+    "C11": {
+        "text": "Proof (Lean 4): the parser model is a fold of per-line results (line_local), a line whose result is skip is the identity wherever it stands (bad_line_identity), parsing a concatenation "
+        "is parsing the second text on top of the first and agrees with _merge_configs on every rule list, log and log-full (parse_merge_hom; default_not_hom records the dead field), and the quoted-message syntax "
+        "round-trips for every message over all characters and every pattern without trailing whitespace (unescape_escape, extract_render, by induction). Totality of the real parser (no exception escapes) and the "
+        "rule-level round trip are established by correspondence and by the direct oracle, not by a theorem; the last sentence (broken config never allows) is exercised on the real hook under config-layer faults.",
+        "design_ref": "DESIGN.md §8 C11",
+        "technique": "Lean 4 theorems (R4 parser fold, escape round trip by induction) + T1 correspondence on parse_config and helpers + round-trip / bad-line / hook-fault failing-input search",
+    },
 }
 
 PENDING_REASON = "check not built yet in this round (DESIGN.md §10 build order); no technique other than Lean proof + correspondence is substituted"
